@@ -1,3 +1,4 @@
 import SR.SExp
 import SR.Util.VClock
 import SR.Util.DenseNatMap
+import SR.Basic
